@@ -456,6 +456,16 @@ def r2_mksetpv(ctx):
     for p, A, B, mA, mB in info:
         roles.append((p, role(mA, minor), role(mB, major), role(mA, major), role(mB, minor)))
     ok = all(rn is not None and rj is not None for _, rn, rj, _, _ in roles)
+    if not ok:
+        # a violation only when the masks are recognised and sit the wrong way round; an unknown way of turning `major` / `minor` into a
+        # mask is something this rule cannot lower
+        t = _first(roles, lambda t: t[1] is None or t[2] is None)
+        mA, mB = next((i[3], i[4]) for i in info if i[0] is t[0])
+        known = lambda pair: any(role(pair, n) is not None for n in (major, minor)) or not any(depends_on_sym(x, n) for x in pair for n in (major, minor))
+        if not (known(mA) and known(mB)):
+            ctx.error("mksetpv: the way a set argument becomes a mask is not recognised (rule knows the integer itself and mkusetmask(name))",
+                      t[0].ret_node, {"regime": t[0].describe(), "membership operands": [_show(list(mA)), _show(list(mB))]})
+            return
     okw = ok and all(same(rn[1], rj[1]) and depends_on_sym(rn[1], args[0]) for _, rn, rj, _, _ in roles)
     ctx.check(okw or not ok, "mksetpv tests major and minor membership on the same USET words (taken from the table)", fn,
               None if okw or not ok else [(_show(rn[1]), _show(rj[1])) for _, rn, rj, _, _ in roles][:1])
@@ -685,7 +695,7 @@ def _analyse_lookup1(p, obs):
     else:
         L.res["sorter"] = ("error", "sorter not recognised as argsort of the searched keys: " + _show(L.I))
     side = sym_of(s["side"])
-    L.res["side"] = ("ok", None) if side == "'left'" else (("fail", side) if side == "'right'" else ("error", _show(s["side"])))
+    L.res["side"] = ("ok", None) if side == "'left'" else ("error", "side = " + _show(s["side"]))
     if L.res["sorter"][0] == "error":
         return L
     L.obs = obs
@@ -712,6 +722,9 @@ def _analyse_lookup1(p, obs):
     L.res["clamp"] = ("ok", None)
     L.P = kinds["clamped"]
     L.C = app(L.P, "idx")[1]
+    if side == "'right'":
+        # the unshifted right insertion point is the position after an exact match: the re-check rejects every request that is present
+        L.res["side"] = ("fail", {"side": "right", "consequence": "sorter[index] is the key after the requested one"})
     # any other use of the (clamped) insertion index, outside P
     at_p = lambda x: same(x, L.P)
     idx_c = find(obs, lambda x: bool(app(x, "idx")) and same(app(x, "idx")[1], L.C) and not same(x, L.P), at_p)
@@ -892,9 +905,16 @@ def _r3_mkdofpv(ctx):
     ctx.check(bad is None and have, "mkdofpv returns (pv, dof): all positions and the whole request when every DOF was found", (bad[0].ret_node if bad else None) or fn,
               None if bad is None else {"regime": bad[0].describe(), "outcome": bad[3]})
     # key construction identical on both sides: id*10 + component
-    okN = all(D is not None and same(L.N, _col(D, 0) * 10 + _col(D, 1)) for p, L, D in rows)
+    def mult(v, X):
+        """k if v == X[:, 0] * k + X[:, 1] for a constant k, else None"""
+        k = const_of((v - _col(X, 1)) / _col(X, 0)) if X is not None and not is_unknown(v) else None
+        return k if k is not None and same(v, _col(X, 0) * k + _col(X, 1)) else None
+
+    ks = {mult(L.N, D) for p, L, D in rows}
+    kN = ks.pop() if len(ks) == 1 else None
+    okN = kN is not None and kN > 6          # components 0..6 must not run into the id
     okH = True
-    part_ok, part_seen, part_bad = True, False, None
+    part_ok, part_seen, part_bad, part_odd = True, False, None, None
     uset = F.sym(fn.args.args[0].arg)
     nasset = fn.args.args[1].arg
     for p, L, D in rows:
@@ -902,7 +922,7 @@ def _r3_mkdofpv(ctx):
         tab = find(H, lambda x: bool(app(x, "idx")) and head(app(x, "idx")[1]) == "tuple")
         if tab:
             U = app(tab[0], "idx")[0]
-            good = same(H, _col(U, 0) * 10 + _col(U, 1))
+            good = kN is not None and same(H, _col(U, 0) * kN + _col(U, 1))
             # a plain array table has no set information: its rows are the p-set, any other request is refused
             if not (same(U, uset) and p.decided(F.fn("cmp:Eq", F.sym(nasset), F.sym("'p'"))) is True):
                 part_ok, part_bad = False, (p, U)
@@ -910,7 +930,7 @@ def _r3_mkdofpv(ctx):
             lv = find(H, lambda x: (_is_call(x, ("get_level_values",), ["self", "level"]) or {}).get("level") is not None)
             ids = [x for x in lv if sym_of(_is_call(x, ("get_level_values",), ["self", "level"])["level"]) == "'id'"]
             dfs = [x for x in lv if sym_of(_is_call(x, ("get_level_values",), ["self", "level"])["level"]) == "'dof'"]
-            good = len(ids) == 1 and len(dfs) == 1 and same(H, ids[0] * 10 + dfs[0])
+            good = len(ids) == 1 and len(dfs) == 1 and kN is not None and same(H, ids[0] * kN + dfs[0])
             U = None
             if good:
                 i1 = _is_call(ids[0], ("get_level_values",), ["self", "level"])["self"]
@@ -925,26 +945,37 @@ def _r3_mkdofpv(ctx):
                     c = _is_call(sel[1], ("mksetpv",), ["uset", "major", "minor"])
                     g = bool(c) and same(c.get("uset"), uset) and sym_of(c.get("major")) == "'p'" and same(c.get("minor"), F.sym(nasset))
                     part_seen = part_seen or g
-                    if not g:
+                    if c is None:
+                        part_odd = (p, U)           # restricted, but not by a call this rule knows
+                    elif not g:
                         part_ok, part_bad = False, (p, U)
                 elif same(U, uset):
                     if isp is not True:
                         part_ok, part_bad = False, (p, U)
                 else:
-                    part_ok, part_bad = False, (p, U)
+                    part_odd = (p, U)
         okH = okH and good
-    ctx.check(okN and okH, "mkdofpv: table keys and requested keys are both id*10 + component", fn,
+    ctx.check(okN and okH, "mkdofpv: table keys and requested keys are the same encoding id*k + component (k = 10 > 6 on both sides)", fn,
               None if okN and okH else {"requested": _show(rows[0][1].N), "table": _show(rows[0][1].H)})
+    if part_ok and part_odd is not None:
+        ctx.error("mkdofpv: how the table is restricted to the requested set is not recognised (rule knows uset.loc[mksetpv(uset, 'p', nasset)])", fn,
+                  {"regime": part_odd[0].describe(), "table": _show(part_odd[1])})
+        return bound
     ctx.check(part_ok and part_seen, "mkdofpv: a DataFrame table is restricted to the requested set by mksetpv(uset, 'p', nasset) before the look-up "
                                      "(positions are positions within that set); an array table is searched only for nasset == 'p'", fn,
               None if part_ok and part_seen else ({"regime": part_bad[0].describe(), "table": _show(part_bad[1])} if part_bad else "no partition found"))
     # the request is expanded (ids -> 6 DOF, 123456 -> digits) before the keys are built
     par = fn.args.args[2].arg
-    good = True
+    good, odd = True, None
     for p, L, D in rows:
         c = _is_call(D, ("expanddof",), ["dof", "grids_only"]) if D is not None else None
+        if c is None and D is not None and not same(strip(D), F.sym(par)):
+            odd = D                 # expanded some other way: not something this rule can judge
         good = good and bool(c) and same(c.get("dof"), F.sym(par)) and same(c.get("grids_only"), F.sym("grids_only"))
-    ctx.check(good, "mkdofpv: the requested keys are built from expanddof(dof, grids_only)", fn, None if good else _show(rows[0][2]))
+    if not good and odd is not None:
+        ctx.error("mkdofpv: how the request is expanded is not recognised (rule knows expanddof(dof, grids_only))", fn, _show(odd))
+    else:
+        ctx.check(good, "mkdofpv: the requested keys are built from expanddof(dof, grids_only)", fn, None if good else _show(rows[0][2]))
     return bound
 
 
